@@ -39,6 +39,15 @@ pub fn oracle_payload_reserved(p: &[u8], suffix: &[u8], reserved: u8) -> Result<
     let m = mf.get_message();
     let name = registry::variant_name(&m);
     let dbg = format!("{:?}", m);
+    // the other public decode entry point, and decoding the same frame a second time, classify identically
+    let m2 = Message::from_message_frame(&mf);
+    let m3 = mf.get_message();
+    if format!("{:?}", m2) != dbg || format!("{:?}", m3) != dbg {
+        return Err((
+            "c14:entry-points-disagree".into(),
+            format!("MessageFrame::get_message gives {}, Message::from_message_frame {} and a second get_message {}", name, registry::variant_name(&m2), registry::variant_name(&m3)),
+        ));
+    }
     if p.len() < 2 {
         return if name == "Empty" {
             Ok("empty")
@@ -116,7 +125,7 @@ pub fn oracle_reverse_hist(row: &registry::MsgRow, m: &Message, history: &[&Mess
 
 pub fn run(ctx: &Ctx, replay: Option<&J>) -> CheckResult {
     let rule = "exhaustive over message numbers n=0..4095 x payload shapes {2 bytes, short random, 1023 zero/ones/random, sparse, random length} \
-        with and without trailing bytes and with zero / random reserved header bits, plus payloads of 0 and 1 byte under all 64 reserved-bit patterns; supported set = rows of the table in src/msg/message.rs (scanned at build \
+        with and without trailing bytes and with zero / random reserved header bits, plus payloads of 0 and 1 byte under all 64 reserved-bit patterns; both decode entry points (MessageFrame::get_message, Message::from_message_frame) and a repeated call must agree; supported set = rows of the table in src/msg/message.rs (scanned at build \
         time) which must equal the msgNNNN features and the all_msgs list of Cargo.toml; oracle: n not supported => MsgNotSupported{n}; supported \
         => variant of n or Corrupt; L<2 <=> Empty; typed.number()==n; reverse: every variant's default and decoded golden message is encoded \
         under its own number, also on a builder that was used once before (refused early / late, long frame) and on a builder that built the message itself and then another (refused or long) message. all cases non-trivial; distinct = (n, shape, repetition)"
